@@ -42,7 +42,7 @@ vars == <<l, txt, o, st, sync, hist>>
 
 TH == 1..TNH
 TB == 1..TMaxBufs
-DeadObs == [k |-> "D", text |-> <<>>, len |-> 0, cap |-> 0, last |-> 0, pc |-> "none", pid |-> 0, rc |-> 0, heap |-> FALSE]
+DeadObs == [k |-> "D", text |-> <<>>, len |-> 0, cap |-> 0, last |-> 0, pc |-> "none", pid |-> 0, rc |-> 0, heap |-> FALSE, rd |-> ""]
 EmptyObs == [hd |-> [h \in TH |-> DeadObs], blk |-> [b \in TB |-> 0], sok |-> TRUE, nic |-> TRUE]
 AllDead == [h \in TH |-> S!DeadT]
 
